@@ -9,7 +9,10 @@ import (
 	"go/token"
 	"go/types"
 	"os"
+	"runtime"
 	"strings"
+	"sync"
+	"time"
 
 	"golang.org/x/tools/go/ssa"
 )
@@ -419,6 +422,9 @@ func (e *Eng) runFrame(fr *frame) {
 		nonPhis := fr.executePhis()
 		for _, instr := range nonPhis {
 			e.steps++
+			if e.steps&0xffff == 0 && memoryExceeded() {
+				panic(pathEnd{kind: endUnwind, msg: "memory budget of the checker exceeded (path abandoned, reported as not explored)"})
+			}
 			if e.steps > e.cfg.MaxSteps && e.initMode == 0 {
 				panic(pathEnd{kind: endUnwind, msg: fmt.Sprintf("step budget exceeded in %s", fr.fn)})
 			}
@@ -730,4 +736,40 @@ func (e *Eng) describe(v Value) string {
 		return sb.String()
 	}
 	return fmt.Sprintf("%T", v)
+}
+
+// memoryExceeded reports whether the checker's heap is above its budget (VERIF_MEM_GB, default 12):
+// paths are then abandoned and counted as not explored instead of letting the process be killed.
+var memLimit = func() uint64 {
+	gb := uint64(12)
+	if v := os.Getenv("VERIF_MEM_GB"); v != "" {
+		var n uint64
+		fmt.Sscanf(v, "%d", &n)
+		if n > 0 {
+			gb = n
+		}
+	}
+	return gb << 30
+}()
+
+var memLast struct {
+	sync.Mutex
+	t    time.Time
+	over bool
+}
+
+func memoryExceeded() bool {
+	memLast.Lock()
+	defer memLast.Unlock()
+	if time.Since(memLast.t) < 2*time.Second {
+		return memLast.over
+	}
+	var ms runtime.MemStats
+	runtime.ReadMemStats(&ms)
+	memLast.t = time.Now()
+	memLast.over = ms.HeapAlloc > memLimit
+	if memLast.over {
+		runtime.GC()
+	}
+	return memLast.over
 }
